@@ -523,6 +523,8 @@ func (env *SpecEnv) evalCall(e *SExpr) Val {
 			env.fail(e, "oncedone: argument must be a sync.Once field y.f of a pointer y")
 		}
 		return Val{T: app("select", fc.heapGet(env.st(), "$oncedone", "(Array Int Bool)"), a.T), Ty: tBool}
+	case "spawned": // number of go statements executed by this function so far
+		return Val{T: fc.heapGet(env.st(), "$spawns", "Int"), Ty: tInt}
 	case "noelems": // the empty set of references ([0]bool, all false)
 		return Val{T: "((as const (Array Int Bool)) false)", Ty: types.NewArray(tBool, 0)}
 	case "addrof": // addrof(y.f): the address of the struct-valued field f of *y
